@@ -2,6 +2,7 @@ import Klong.Model.C01
 import Klong.Model.C01Ext1
 import Klong.Model.C01Ext2
 import Klong.Model.C01Ext3
+import Klong.Model.C01Ext4
 open Klong Klong.C01
 
 /-- the base model first; verbs it leaves unmodelled are tried in the extensions -/
@@ -15,14 +16,14 @@ def handleAll (s : C01.State) (ws : List String) : C01.State × String :=
   | "D" :: verb :: rest =>
     match Val.parseMany (Val.tokenize (" ".intercalate rest)) with
     | some [a, b] =>
-      let impl := firstModelled [implDyad verb a b, Ext1.implDyad verb a b, Ext2.implDyad verb a b, Ext3.implDyad verb a b]
-      (s, s!"ref={showOpt ((refDyad verb a b).orElse fun _ => Ext3.refDyad verb a b)} impl={showRes impl}")
+      let impl := firstModelled [implDyad verb a b, Ext1.implDyad verb a b, Ext2.implDyad verb a b, Ext3.implDyad verb a b, Ext4.implDyad verb a b]
+      (s, s!"ref={showOpt (((refDyad verb a b).orElse fun _ => Ext3.refDyad verb a b).orElse fun _ => Ext4.refDyad verb a b)} impl={showRes impl}")
     | _ => (s, "bad-op")
   | "M" :: verb :: rest =>
     match Val.parseMany (Val.tokenize (" ".intercalate rest)) with
     | some [a] =>
-      let impl := firstModelled [implMonad verb a, Ext1.implMonad verb a, Ext2.implMonad verb a, Ext3.implMonad verb a]
-      (s, s!"ref={showOpt ((refMonad verb a).orElse fun _ => Ext3.refMonad verb a)} impl={showRes impl}")
+      let impl := firstModelled [implMonad verb a, Ext1.implMonad verb a, Ext2.implMonad verb a, Ext3.implMonad verb a, Ext4.implMonad verb a]
+      (s, s!"ref={showOpt (((refMonad verb a).orElse fun _ => Ext3.refMonad verb a).orElse fun _ => Ext4.refMonad verb a)} impl={showRes impl}")
     | _ => (s, "bad-op")
   | _ => (s, "bad-op")
 
